@@ -22,6 +22,7 @@ struct Script {
   bool has_iis = false; std::vector<int> variis; std::map<int, std::vector<int>> coniis;
   int n_interm = 0;          // intermediate solutions to report (MULTISOL)
   int raise_at = 0;          // 1: throw in Solve, 2: throw in ReportResults
+  int n_warn = 0;            // ReportResults adds this many different warnings (AddWarning)
   int abort_code = -1;       // >= 0: Solve() ends with StdBackend::Abort(code, ...) (a result delivered by exception)
   int poll_stop = 0;         // poll interrupter this many times in Solve
   /// a history of direct value transfers to perform on the converted model (C04):
